@@ -169,7 +169,7 @@ fn parse_response(raw: &[u8]) -> std::io::Result<HttpResponse> {
         .and_then(|s| s.parse::<u16>().ok())
         .ok_or_else(|| invalid(&format!("unparseable status line: {status_line:?}")))?;
 
-    let headers = head
+    let headers: Vec<(String, String)> = head
         .split(|b| *b == b'\n')
         .skip(1)
         .filter_map(|line| {
@@ -178,6 +178,30 @@ fn parse_response(raw: &[u8]) -> std::io::Result<HttpResponse> {
             Some((k.trim().to_ascii_lowercase(), v.trim().to_string()))
         })
         .collect();
+
+    // `Connection: close` makes EOF the end of the body, but EOF alone cannot
+    // tell a complete body from a connection that died half-way through it.
+    // When the peer declared a length, hold it to that: a short body is an
+    // error, never a shorter success (a truncated fragment reply would
+    // otherwise decode as a valid, smaller result). Responses without a
+    // Content-Length keep the read-until-EOF behaviour.
+    for (k, v) in &headers {
+        if k == "content-length" {
+            let declared: usize = v
+                .parse()
+                .map_err(|_| invalid(&format!("unparseable Content-Length: {v:?}")))?;
+            if body.len() < declared {
+                return Err(std::io::Error::new(
+                    std::io::ErrorKind::UnexpectedEof,
+                    format!(
+                        "response body truncated: got {} of {} declared bytes",
+                        body.len(),
+                        declared
+                    ),
+                ));
+            }
+        }
+    }
 
     Ok(HttpResponse {
         status,
